@@ -513,7 +513,9 @@ def pack_special_typing_primitive(spec: ValueSpec) -> Optional[Expression]:
                 pv = PackerRegistry.get(spec.copy(type=bound))
                 return expr_or_maybe_none(spec, pv)
         elif is_new_type(spec.type):
-            return PackerRegistry.get(spec.copy(type=spec.type.__supertype__))
+            return PackerRegistry.get(
+                spec.copy(type=spec.type.__supertype__, could_be_none=True)
+            )
         elif is_literal(spec.type):
             return pack_literal(spec)
         elif spec.type is typing_extensions.LiteralString:
@@ -568,7 +570,9 @@ def pack_special_typing_primitive(spec: ValueSpec) -> Optional[Expression]:
             if evaluated is not None:
                 return PackerRegistry.get(spec.copy(type=evaluated))
         elif is_type_alias_type(spec.type):
-            return PackerRegistry.get(spec.copy(type=spec.type.__value__))
+            return PackerRegistry.get(
+                spec.copy(type=spec.type.__value__, could_be_none=True)
+            )
         elif is_readonly(spec.type):
             return PackerRegistry.get(spec.copy(type=get_args(spec.type)[0]))
         raise UnserializableDataError(
